@@ -280,7 +280,16 @@ fn case_lint(t: &mut Tape, st: &mut Stats) -> Verdict {
             line.push_str(&ident(t, part == 0));
             line.push(' ');
         }
-        if !label_only {
+        // an output variable with no command after it is a line shape of its own, too (it clears the variable)
+        let output_only = has_out && part != 1 && t.chance(1, 3);
+        if output_only {
+            line.push_str(&ident(t, part == 2));
+            line.push_str(" =");
+            st.class("output-variable-without-command");
+            if want_bad && part == 2 {
+                st.class("upper-case-output-variable-without-command");
+            }
+        } else if !label_only {
             if has_out {
                 line.push_str(&ident(t, part == 2));
                 line.push_str(" = ");
@@ -393,7 +402,7 @@ pub fn property() -> Property {
                     Tier::Thorough => Plan::Random { cases: 200_000, max_len: 300 },
                 },
                 case: case_lint,
-                min_classes: &[("lint-accepts", 500), ("lint-rejects-upper-case", 500), ("lint-parse-error", 100), ("upper-case-label-alone-on-its-line", 30)],
+                min_classes: &[("lint-accepts", 500), ("lint-rejects-upper-case", 500), ("lint-parse-error", 100), ("upper-case-label-alone-on-its-line", 30), ("upper-case-output-variable-without-command", 30)],
             },
             Section {
                 name: "info",
